@@ -9,11 +9,13 @@
 //
 // Time: the "time" import of data/trie/sync.go and doubleListSync.go is shimmed
 // (ovl/shims.txt) to verif/engine/shim/vtime. vtime.AfterHook turns `time.After(wait)` into
-// the rendezvous "one loop iteration finished": the syncer goroutine hands control to the
-// harness and blocks on a channel only the harness fires, so exactly one of the two
-// goroutines runs at any time (no timers, no polling, no free-running goroutines). The hook
-// is global while executions run in parallel: the wait duration of each syncer is set
-// (export file, VerifC05SetWait) to a value that identifies the execution slot.
+// the rendezvous "one loop iteration finished". StartSyncing runs as a coroutine
+// (iter.Pull): the hook yields to the harness, which delivers messages and resumes it; the
+// channel the hook then returns has already fired (or never fires when the harness has
+// cancelled the context at the horizon). Exactly one side runs at any time: no timers, no
+// polling, no free-running goroutines, nothing left to the Go scheduler. The hook is
+// global while executions run in parallel: the wait duration of each syncer is set (export
+// file, VerifC05SetWait) to a value that identifies the execution slot.
 // vtime.SetLogical(true) makes time.Now logical; the watchdog timeout is 1000 h, i.e. it
 // never fires (ErrTimeIsOut would be "completion with error": nothing to assert).
 //
@@ -34,6 +36,7 @@ import (
 	"encoding/hex"
 	"encoding/json"
 	"fmt"
+	"iter"
 	"os"
 	"runtime"
 	"runtime/debug"
@@ -292,10 +295,9 @@ func (d *recDB) IsInterfaceNil() bool { return d == nil }
 // ---------------------------------------------------------------- execution environment
 
 type env struct {
-	yield   chan struct{}  // syncer -> harness: "iteration finished, I am inside time.After"
-	pending chan time.Time // the channel returned by time.After; only the harness fires it
-	done    chan string    // result of StartSyncing ("" = nil error)
-	lastReq []string       // hashes requested during the last iteration (sorted, unique)
+	yield   func(struct{}) bool // coroutine switch syncer -> harness: "iteration finished, I am inside time.After"
+	fire    bool                // set by the harness before it resumes the syncer: the timer fires (false: it never does)
+	lastReq []string            // hashes requested during the last iteration (sorted, unique)
 	numReq  int
 	unknown int // requested hashes that are not nodes of the source trie
 	known   map[string][]byte
@@ -338,9 +340,12 @@ func afterHook(d time.Duration) <-chan time.Time {
 		panic(fmt.Sprintf("c05: time.After(%v) from an unknown execution", d))
 	}
 	e := envs[i]
+	e.yield(struct{}{}) // control goes to the harness (runOne) until it resumes this coroutine
+	if !e.fire {
+		return nil // a timer that never fires (the harness has cancelled the context)
+	}
 	ch := make(chan time.Time, 1)
-	e.pending = ch
-	e.yield <- struct{}{}
+	ch <- time.Time{}
 	return ch
 }
 
@@ -467,7 +472,7 @@ type result struct {
 	outcome  string // synced | horizon | error:... | panic:...
 	rounds   int
 	kinds    []string // deviation kinds taken
-	trace    []string
+	steps    []step
 	accepted int
 	rejected int
 	panics   []string
@@ -525,7 +530,7 @@ func runOne(s *source, cfg config, ch *mc.Chooser) *result {
 	if err != nil {
 		panic(err)
 	}
-	e := &env{yield: make(chan struct{}), done: make(chan string, 1), known: s.enc}
+	e := &env{known: s.enc}
 	envs[slot] = e
 	syncer, err := trie.CreateTrieSyncer(trie.ArgTrieSyncer{
 		Marshalizer:                    marsh,
@@ -547,7 +552,12 @@ func runOne(s *source, cfg config, ch *mc.Chooser) *result {
 	}
 	ctx, cancel := context.WithCancel(context.Background())
 	defer cancel()
-	go func() {
+	// The syncer runs as a coroutine (iter.Pull): StartSyncing executes in its own goroutine,
+	// but control is handed over explicitly - next() resumes it, the time.After hook yields
+	// back - so exactly one side runs at any time and the Go scheduler decides nothing.
+	var outcome string
+	next, stop := iter.Pull(func(yield func(struct{}) bool) {
+		e.yield = yield
 		if cfg.MapOrder {
 			vmap.Attach(ch)
 			defer vmap.Detach()
@@ -556,56 +566,71 @@ func runOne(s *source, cfg config, ch *mc.Chooser) *result {
 		perr := mc.Try(func() { serr = syncer.StartSyncing(s.root, ctx) })
 		switch {
 		case perr != "":
-			e.done <- "panic:" + perr
+			outcome = "panic:" + perr
 		case serr != nil:
-			e.done <- "error:" + serr.Error()
+			outcome = "error:" + serr.Error()
 		default:
-			e.done <- "synced"
+			outcome = "synced"
 		}
-	}()
+	})
+	defer stop()
 
 	horizon := 4 * len(s.hashes)
 	for {
-		select {
-		case <-e.yield:
-		case out := <-e.done:
-			r.outcome = out
-		}
-		if r.outcome != "" {
+		if _, alive := next(); !alive {
+			r.outcome = outcome
 			break
 		}
 		if r.rounds >= horizon {
+			// horizon reached: the timer never fires, the context is cancelled
+			e.fire = false
 			cancel()
-			out := <-e.done
-			if out == "error:"+trie.ErrContextClosing.Error() {
-				out = "horizon"
+			if _, alive := next(); alive {
+				panic("c05: syncer still looping after its context was cancelled")
 			}
-			r.outcome = out
+			r.outcome = outcome
+			if outcome == "error:"+trie.ErrContextClosing.Error() {
+				r.outcome = "horizon"
+			}
 			break
 		}
 		acts := s.menu(e.lastReq)
-		a := ch.ChooseDev(len(acts), fmt.Sprintf("r%d", r.rounds))
-		act := acts[a]
+		a := ch.ChooseDev(len(acts), "round")
+		act := &acts[a]
 		if a != 0 {
 			r.kinds = append(r.kinds, act.kind)
 		}
-		t := fmt.Sprintf("r%d req=%s -> %s", r.rounds, shortList(e.lastReq), act.kind)
-		if act.what != "" {
-			t += "(" + act.what + ")"
-		}
-		r.trace = append(r.trace, t)
+		r.steps = append(r.steps, step{req: e.lastReq, act: act})
 		e.lastReq = nil
 		for _, m := range act.msgs {
 			deliver(proc, m, r)
 		}
 		r.rounds++
-		e.pending <- time.Time{}
+		e.fire = true
 	}
 	r.unknown = e.unknown
 	if r.outcome == "synced" {
 		r.viol = oracle(s, db)
 	}
 	return r
+}
+
+type step struct {
+	req []string
+	act *action
+}
+
+// trace renders the schedule of an execution (only needed for samples and witnesses).
+func (r *result) trace() []string {
+	var out []string
+	for i, st := range r.steps {
+		t := fmt.Sprintf("r%d req=%s -> %s", i, shortList(st.req), st.act.kind)
+		if st.act.what != "" {
+			t += "(" + st.act.what + ")"
+		}
+		out = append(out, t)
+	}
+	return out
 }
 
 func shortList(hs []string) string {
@@ -759,19 +784,19 @@ func report(c *mc.Ctx, st *stats, s *source, cfg config, ch *mc.Chooser, r *resu
 	if strings.HasPrefix(r.outcome, "panic:") {
 		st.counts["syncer_panics"]++
 		if c.WantSample() {
-			c.Sample(map[string]interface{}{"keys": s.Keys, "cfg": cfg, "trace": r.trace, "outcome": r.outcome})
+			c.Sample(map[string]interface{}{"keys": s.Keys, "cfg": cfg, "trace": r.trace(), "outcome": r.outcome})
 		}
 	}
 	if dev > 1 && len(s.Keys) >= 3 && r.outcome == "synced" && c.WantSample() {
-		c.Sample(map[string]interface{}{"keys": s.Keys, "cfg": cfg, "trace": r.trace, "outcome": r.outcome})
+		c.Sample(map[string]interface{}{"keys": s.Keys, "cfg": cfg, "trace": r.trace(), "outcome": r.outcome})
 	}
 	for _, v := range r.viol {
 		d := v.detail
 		d["trie_keys"] = s.Keys
 		d["cfg"] = cfg
-		d["schedule"] = r.trace
+		d["schedule"] = r.trace()
 		d["deviations"] = dev
-		c.ViolationR(fmt.Sprintf("syncer%d:%s", cfg.Syncer, v.sig), dev*100000+len(s.Keys)*10000+len(s.hashes)*100+len(r.trace), d,
+		c.ViolationR(fmt.Sprintf("syncer%d:%s", cfg.Syncer, v.sig), dev*100000+len(s.Keys)*10000+len(s.hashes)*100+len(r.steps), d,
 			replay{Keys: s.Keys, Cfg: cfg, Choices: ch.Choices()})
 	}
 }
@@ -780,7 +805,7 @@ func main() {
 	if err := logger.SetLogLevel("*:NONE"); err != nil {
 		panic(err)
 	}
-	debug.SetGCPercent(400)
+	debug.SetGCPercent(gcPercent())
 	mc.Main("C05", "fault_enumeration", func(c *mc.Ctx) {
 		if f := os.Getenv("VERIF_PPROF"); f != "" { // development aid only
 			if w, err := os.Create(f); err == nil {
@@ -790,10 +815,9 @@ func main() {
 		}
 		vtime.SetLogical(true)
 		vtime.AfterHook = afterHook
-		// Every execution is a ping-pong between two goroutines; with idle Ps around, each
-		// hand-off wakes another OS thread (futex) that then steals the goroutine. Keeping
-		// GOMAXPROCS at the number of workers avoids that.
-		runtime.GOMAXPROCS(mc.Workers())
+		if mc.Workers() < runtime.NumCPU() {
+			runtime.GOMAXPROCS(mc.Workers() + 1)
+		}
 		slots = make(chan int, maxSlots)
 		for i := 0; i < maxSlots; i++ {
 			slots <- i
@@ -811,7 +835,7 @@ func main() {
 			st := newStats()
 			report(c, st, s, rp.Cfg, ch, r)
 			st.flush(c)
-			fmt.Printf("replay: outcome=%s rounds=%d schedule=%v violations=%d\n", r.outcome, r.rounds, r.trace, len(r.viol))
+			fmt.Printf("replay: outcome=%s rounds=%d schedule=%v violations=%d\n", r.outcome, r.rounds, r.trace(), len(r.viol))
 			return
 		}
 
@@ -968,4 +992,11 @@ func main() {
 			"target DB starts empty",
 		}
 	})
+}
+
+func gcPercent() int {
+	if v, err := strconv.Atoi(os.Getenv("C05_GC")); err == nil { // development aid only
+		return v
+	}
+	return 400
 }
